@@ -151,8 +151,10 @@ impl Story {
         // Refuse bad argument types before anything is changed
         StoryState::check_arguments(args)?;
 
-        // Snapshot the output stream
+        // Snapshot the output stream and the previous position: the function's last step must not
+        // be taken for where the story came from (it decides which containers a later jump counts as entered)
         let output_stream_before = self.get_state().get_output_stream().clone();
+        let previous_pointer_before = self.get_state().get_previous_pointer();
         self.get_state_mut().reset_output(None);
 
         // State will temporarily replace the callstack in order to evaluate
@@ -172,8 +174,12 @@ impl Story {
             .reset_output(Some(output_stream_before));
 
         // Finish evaluation, and see whether anything was produced
+        let result = self
+            .get_state_mut()
+            .complete_function_evaluation_from_game();
         self.get_state_mut()
-            .complete_function_evaluation_from_game()
+            .set_previous_pointer(previous_pointer_before);
+        result
     }
 
     pub(crate) fn visit_changed_containers_due_to_divert(&mut self) {
